@@ -14,7 +14,8 @@ def in_scope(p):
     return bool(SCOPE.search(p))
 
 
-def r_err(ctx, P, whole_crate=True):
+def r_err(ctx, P, whole_crate=True, only=None, floor=3000):
+    """only: regex on the function path (another property re-using R-err for the modules it depends on)."""
     rev = errs.load_reviewed(os.path.join(HERE, 'reviewed', 'err_discards.txt'))
     seen = set()
     nsites = 0
@@ -23,6 +24,8 @@ def r_err(ctx, P, whole_crate=True):
         if r.get('derived'):
             continue
         if not whole_crate and not in_scope(p):
+            continue
+        if only and not re.search(only, p):
             continue
         b = ctx.wrap(r)
         calls = [t for i, t in b.calls() if t.get('rty', '').startswith('std::result::Result<')]
@@ -43,9 +46,10 @@ def r_err(ctx, P, whole_crate=True):
             else:
                 ctx.violation(key, 'R-err', 'the Result of `%s` is discarded (%s) in %s — not propagated, converted, stored or inspected' % (fn.split('::')[-1], form, p),
                               function=p, site=site(b, i), missing='form=%s callee=%s; add `?`/map_err, or list the exact key in rules/reviewed/err_discards.txt with a reason' % (form, fn))
-    ctx.floor(P + ':S09-1:floor:sites', 'Result-returning call sites examined by R-err', nsites, 3000)
+    ctx.floor(P + ':S09-1:floor:sites', 'Result-returning call sites examined by R-err', nsites, floor)
     # entries that exist only under another feature configuration are tagged `[cfg=<name>]` and are not stale here
-    stale = sorted(k for k in set(rev) - seen if not (rev[k].startswith('[cfg=') and not rev[k].startswith('[cfg=%s]' % ctx.config)))
+    stale = sorted(k for k in set(rev) - seen if not (rev[k].startswith('[cfg=') and not rev[k].startswith('[cfg=%s]' % ctx.config))
+                   and not (only and not re.search(only, k)))
     ctx.check(P + ':S09-1:reviewed-table-fresh', 'R-err', 'every reviewed exception still matches a site (no stale suppression)', not stale, missing=stale)
     ctx.extra = dict(getattr(ctx, 'extra', {}), r_err_call_sites=nsites, r_err_functions=nfun, r_err_reviewed=sorted(seen & set(rev)))
 
